@@ -3,6 +3,7 @@ package main
 import (
 	"context"
 	"crypto/ecdsa"
+	"crypto/rand"
 	"encoding/json"
 	"fmt"
 	"os"
@@ -150,14 +151,18 @@ type ctlWorld struct {
 	objs     []*object.Object
 	node     *controlsrv.Server
 	ir       *ircontrolsrv.Server
-	dumpPath string // target of DumpShard
-	restPath string // prepared dump, source of RestoreShard
+	saved    map[string]savedSig // signatures of the correctly signed requests made so far on this world, by method#variant
+	replayOK bool                // set by setSig for class "replay": the replayed signature covers exactly the bytes of this request
+	dumpPath string              // target of DumpShard
+	restPath string              // prepared dump, source of RestoreShard
 	closers  []func()
 }
 
+type savedSig struct{ data, sig []byte }
+
 // newCtlWorld prepares the world for calls of method `forMethod` (DumpShard / EvacuateShard need a read-only shard).
 func newCtlWorld(dir string, forMethod string) *ctlWorld {
-	w := &ctlWorld{rec: new(Recorder), dir: dir, srvKey: newKey(), admins: []*ecdsa.PrivateKey{newKey(), newKey()}, stranger: newKey()}
+	w := &ctlWorld{rec: new(Recorder), dir: dir, srvKey: newKey(), admins: []*ecdsa.PrivateKey{newKey(), newKey()}, stranger: newKey(), saved: map[string]savedSig{}}
 	log := zap.NewNop()
 	ow := NewWorldLite() // containers / network fakes
 	ch := chain{ow}
@@ -285,6 +290,16 @@ func (w *ctlWorld) bodies() map[string]func() any {
 	}
 }
 
+// zeroBodies: request bodies that are filled in but marshal to ZERO bytes (the signature then covers the empty string)
+func (w *ctlWorld) zeroBodies() map[string]func() any {
+	return map[string]func() any{
+		"node.DropObjects":     func() any { return &control.DropObjectsRequest_Body{} },
+		"node.SetNetmapStatus": func() any { return &control.SetNetmapStatusRequest_Body{Status: control.NetmapStatus_STATUS_UNDEFINED} },
+		"node.FlushCache":      func() any { return &control.FlushCacheRequest_Body{} },
+		"node.EvacuateShard":   func() any { return &control.EvacuateShardRequest_Body{} },
+	}
+}
+
 // methods whose only observable effect of an AUTHORISED call is the data in the response
 var ctlReadOnly = map[string]bool{"node.ListShards": true, "node.ListObjects": true, "node.ObjectStatus": true}
 
@@ -293,7 +308,7 @@ var ctlAsync = map[string]bool{"node.DropObjects": true, "node.EvacuateShard": t
 
 // setSig signs (or mis-signs) req according to the signature class. Returns false if the class does not
 // apply to the request (corrupted body of a request that has no body fields).
-func (w *ctlWorld) setSig(req any, cls string, filled bool) bool {
+func (w *ctlWorld) setSig(req any, cls string, filled bool, c ctlCall) bool {
 	rv := reflect.ValueOf(req)
 	sm := req.(signedMsg)
 	set := rv.MethodByName("SetSignature")
@@ -317,7 +332,23 @@ func (w *ctlWorld) setSig(req any, cls string, filled bool) bool {
 	case "ownkey": // the server's own key (IR: white-listed by construction; node: not an administrator)
 		mk(pubBytes(w.srvKey), sign(w.srvKey))
 	case "valid":
-		mk(pubBytes(w.admins[0]), sign(w.admins[0]))
+		sg := sign(w.admins[0])
+		mk(pubBytes(w.admins[0]), sg)
+		data, _ := sm.ReadSignedData(nil)
+		w.saved[c.M+"#"+c.Var] = savedSig{data: data, sig: sg}
+	case "replay": // the administrator's key with a signature that WAS valid - for an earlier request of this server instance
+		sv, ok := w.saved[c.Of]
+		if !ok {
+			return false
+		}
+		data, _ := sm.ReadSignedData(nil)
+		w.replayOK = string(data) == string(sv.data)
+		mk(pubBytes(w.admins[0]), sv.sig)
+	case "garbage": // administrator's key, random bytes of a plausible length instead of a signature
+		g := make([]byte, 65)
+		_, _ = rand.Read(g)
+		g[0] = 4
+		mk(pubBytes(w.admins[0]), g)
 	case "valid2":
 		mk(pubBytes(w.admins[1]), sign(w.admins[1]))
 	case "keymismatch": // administrator's key presented, signature made by another key
@@ -378,6 +409,8 @@ type ctlCall struct {
 	Srv string `json:"srv"`
 	M   string `json:"m"`
 	Sig string `json:"sig"`
+	Var string `json:"var"` // "" = filled body, "zero" = body that marshals to zero bytes
+	Of  string `json:"of"`  // class "replay": method#variant whose (once valid) signature is re-used
 }
 
 // authorised is the ground truth: does the request carry a valid signature of a configured key?
@@ -414,13 +447,23 @@ func (w *ctlWorld) call(c ctlCall) ([]kit.M, string) {
 		return nil, "request is not a signed message"
 	}
 	filler, filled := w.bodies()[c.Srv+"."+c.M]
+	if c.Var == "zero" {
+		filler, filled = w.zeroBodies()[c.Srv+"."+c.M]
+		if !filled {
+			return nil, "no zero-length body for the method"
+		}
+	}
 	if filled {
 		req.Elem().FieldByName("Body").Set(reflect.ValueOf(filler()))
 	} else if authorised(c) {
 		return nil, "no body filler (authorised class not driven)"
 	}
-	if !w.setSig(req.Interface(), c.Sig, filled) {
-		return nil, "class not applicable (request body carries no data)"
+	if !w.setSig(req.Interface(), c.Sig, filled, c) {
+		return nil, "class not applicable (request body carries no data / nothing to replay)"
+	}
+	auth := authorised(c)
+	if c.Sig == "replay" {
+		auth = w.replayOK // the signature covers the body only: the same bytes under another method are legitimately signed
 	}
 	var args []reflect.Value
 	var stream *listStream
@@ -439,7 +482,7 @@ func (w *ctlWorld) call(c ctlCall) ([]kit.M, string) {
 	}
 	before := w.digest()
 	w.rec.Start()
-	w.rec.Emit("Call", "srv", c.Srv, "m", c.M, "sig", c.Sig, "auth", authorised(c))
+	w.rec.Emit("Call", "srv", c.Srv, "m", c.M, "sig", c.Sig, "auth", auth)
 	outs := mv.Call(args)
 	raw := w.rec.Stop()
 	after := w.digest()
@@ -454,7 +497,7 @@ func (w *ctlWorld) call(c ctlCall) ([]kit.M, string) {
 			hasResp = true
 		}
 	}
-	evs := []kit.M{{"ev": "Call", "srv": c.Srv, "m": c.M, "sig": c.Sig, "auth": authorised(c)}}
+	evs := []kit.M{{"ev": "Call", "srv": c.Srv, "m": c.M, "sig": c.Sig, "auth": auth, "var": c.Var, "of": c.Of}}
 	for _, e := range raw[1:] {
 		evs = append(evs, kit.M{"ev": "Dep", "name": e["name"]})
 	}
@@ -485,7 +528,7 @@ func ifaceMethods(t reflect.Type) []string {
 // cmdControl: rpc control <trace.ndjson> <calls.ndjson>
 func cmdControl(tracePath, callsPath string) {
 	rnd := kit.Rand(32)
-	refusal := []string{"none", "wrongkey", "keymismatch", "badsig", "emptysig", "badbody", "ownkey"}
+	refusal := []string{"none", "wrongkey", "keymismatch", "badsig", "emptysig", "garbage", "badbody", "ownkey"}
 	type srvDesc struct {
 		name string
 		ms   []string
@@ -512,35 +555,85 @@ func cmdControl(tracePath, callsPath string) {
 	for r := 0; r < rounds; r++ {
 		for _, sd := range srvs {
 			for _, m := range sd.ms {
-				// a fresh world per method: refusal classes (shuffled) -> authorised classes -> refusal classes again
-				dir, err := os.MkdirTemp("", "ctlworld")
-				kit.Must(err)
-				key := sd.name + "." + m
-				w := newCtlWorld(dir, key)
-				_, filled := w.bodies()[key]
-				status[key] = "modelled"
-				if !filled {
-					status[key] = "unmodelled (no request body for the authorised class; refusal classes are still checked)"
-				}
-				round := func(classes []string) {
-					cs := append([]string(nil), classes...)
-					rnd.Shuffle(len(cs), func(i, j int) { cs[i], cs[j] = cs[j], cs[i] })
-					for _, sc := range cs {
-						c := ctlCall{sd.name, m, sc}
-						evs, why := w.call(c)
-						if evs == nil {
-							if strings.HasPrefix(why, "parameter") || strings.HasPrefix(why, "no request") || strings.HasPrefix(why, "request is not") {
-								status[key] = "unmodelled (" + why + ")"
-							}
+				for _, variant := range []string{"", "zero"} {
+					// a fresh world per method: refusal classes (shuffled) -> authorised classes -> refusal classes again
+					dir, err := os.MkdirTemp("", "ctlworld")
+					kit.Must(err)
+					key := sd.name + "." + m
+					w := newCtlWorld(dir, key)
+					_, filled := w.bodies()[key]
+					if variant == "zero" {
+						if _, ok := w.zeroBodies()[key]; !ok {
+							w.Close()
 							continue
 						}
-						emit(c, evs)
+					} else {
+						status[key] = "modelled"
+						if !filled {
+							status[key] = "unmodelled (no request body for the authorised class; refusal classes are still checked)"
+						}
+					}
+					round := func(classes []string) {
+						cs := append([]string(nil), classes...)
+						rnd.Shuffle(len(cs), func(i, j int) { cs[i], cs[j] = cs[j], cs[i] })
+						for _, sc := range cs {
+							c := ctlCall{Srv: sd.name, M: m, Sig: sc, Var: variant}
+							evs, why := w.call(c)
+							if evs == nil {
+								if strings.HasPrefix(why, "parameter") || strings.HasPrefix(why, "no request") || strings.HasPrefix(why, "request is not") {
+									status[key] = "unmodelled (" + why + ")"
+								}
+								continue
+							}
+							emit(c, evs)
+						}
+					}
+					round(refusal)
+					round([]string{"valid", "valid2"})
+					if !ctlAsync[key] {
+						round(refusal)
+					}
+					w.Close()
+				}
+			}
+			// replay sequences on ONE server instance: a correctly signed request of method A, then its signature (with the
+			// administrator's key) attached to requests of every method / body
+			type mv struct{ m, v string }
+			var all []mv
+			{
+				dir, err := os.MkdirTemp("", "ctlworld")
+				kit.Must(err)
+				w0 := newCtlWorld(dir, "")
+				for _, m := range sd.ms {
+					if _, ok := w0.bodies()[sd.name+"."+m]; ok {
+						all = append(all, mv{m, ""})
+					}
+					if _, ok := w0.zeroBodies()[sd.name+"."+m]; ok {
+						all = append(all, mv{m, "zero"})
 					}
 				}
-				round(refusal)
-				round([]string{"valid", "valid2"})
-				if !ctlAsync[key] {
-					round(refusal)
+				w0.Close()
+			}
+			srcs := append([]mv(nil), all...)
+			rnd.Shuffle(len(srcs), func(i, j int) { srcs[i], srcs[j] = srcs[j], srcs[i] })
+			if !kit.Thorough() && len(srcs) > 5 {
+				srcs = srcs[:5]
+			}
+			for _, src := range srcs {
+				dir, err := os.MkdirTemp("", "ctlworld")
+				kit.Must(err)
+				w := newCtlWorld(dir, sd.name+"."+src.m)
+				c := ctlCall{Srv: sd.name, M: src.m, Sig: "valid", Var: src.v}
+				if evs, _ := w.call(c); evs != nil {
+					emit(c, evs)
+					tg := append([]mv(nil), all...)
+					rnd.Shuffle(len(tg), func(i, j int) { tg[i], tg[j] = tg[j], tg[i] })
+					for _, t := range tg {
+						rc := ctlCall{Srv: sd.name, M: t.m, Sig: "replay", Var: t.v, Of: src.m + "#" + src.v}
+						if evs, _ := w.call(rc); evs != nil {
+							emit(rc, evs)
+						}
+					}
 				}
 				w.Close()
 			}
@@ -563,12 +656,12 @@ func cmdControlReplay(in, tracePath, callsPath string) {
 	}
 	kit.Must(json.Unmarshal(b, &doc))
 	tw, cw := kit.NewW(tracePath), kit.NewW(callsPath)
+	dir, err := os.MkdirTemp("", "ctlworld")
+	kit.Must(err)
+	last := doc.Replay.Calls[len(doc.Replay.Calls)-1]
+	w := newCtlWorld(dir, last.Srv+"."+doc.Replay.Calls[0].M) // all the calls of the replay on ONE server instance, in order
 	for i, c := range doc.Replay.Calls {
-		dir, err := os.MkdirTemp("", "ctlworld")
-		kit.Must(err)
-		w := newCtlWorld(dir, c.Srv+"."+c.M)
 		evs, why := w.call(c)
-		w.Close()
 		if evs == nil {
 			fmt.Fprintln(os.Stderr, "cannot replay:", why)
 			os.Exit(2)
@@ -579,6 +672,7 @@ func cmdControlReplay(in, tracePath, callsPath string) {
 		}
 		cw.Emit(kit.M{"i": i, "m": c.Srv + "." + c.M, "cls": c, "first": first, "last": tw.N})
 	}
+	w.Close()
 	tw.Close()
 	cw.Close()
 	fmt.Println(`{"methods":{},"calls":1}`)
